@@ -481,7 +481,160 @@ fn gadgets<F: VF>(ctx: &mut Ctx) {
     }
 }
 
+// -------------------------------------------------------------------------------------------
+// sigma polynomials vs copy classes (C02: "sigma polynomials encode one cycle per copy class")
+
+const SIGMA_FILES: &[&str] = &[
+    "plonky2/src/plonk/circuit_builder.rs::CircuitBuilder::sigma_vecs",
+    "plonky2/src/plonk/permutation_argument.rs::Forest::merge",
+    "plonky2/src/plonk/permutation_argument.rs::Forest::compress_paths",
+    "plonky2/src/plonk/permutation_argument.rs::Forest::wire_partition",
+    "plonky2/src/plonk/permutation_argument.rs::WirePartition::get_sigma_map",
+];
+
+/// Decode the committed sigma values of a built circuit into a permutation of the routed wire
+/// cells and compare its cycles with the copy classes (the builder's own representative map,
+/// which the witness generator uses). The structure is concrete: these are evaluated facts.
+fn sigma_case<F: VF>(ctx: &mut Ctx, name: &str, build: impl Fn(&mut CircuitBuilder<F, 2>), config: CircuitConfig) {
+    let idp = format!("C02.S.plonk.sigma.{name}");
+    ctx.guarded(&idp.clone(), SIGMA_FILES, |ctx| {
+        if F::SYMBOLIC {
+            crate::reset();
+        }
+        let mut b = CircuitBuilder::<F, 2>::new(config.clone());
+        build(&mut b);
+        let data = b.build::<F::Cfg>();
+        let cd = &data.common;
+        let (n, routed, nw) = (cd.degree(), cd.config.num_routed_wires, cd.config.num_wires);
+        let po = &data.prover_only;
+        // value -> cell
+        let mut cell_of: std::collections::HashMap<crate::Op, (usize, usize)> = std::collections::HashMap::new();
+        for c in 0..routed {
+            for r in 0..n {
+                cell_of.insert((cd.k_is[c] * po.subgroup[r]).to_op(), (r, c));
+            }
+        }
+        let mut is_perm = cell_of.len() == n * routed;
+        let mut sigma: std::collections::HashMap<(usize, usize), (usize, usize)> = std::collections::HashMap::new();
+        for r in 0..n {
+            for c in 0..routed {
+                match cell_of.get(&po.sigmas[r][c].to_op()) {
+                    Some(&t) => {
+                        sigma.insert((r, c), t);
+                    }
+                    None => is_perm = false,
+                }
+            }
+        }
+        let image: std::collections::HashSet<(usize, usize)> = sigma.values().copied().collect();
+        is_perm &= image.len() == n * routed;
+        // cycles of sigma vs classes of the representative map
+        let rep = |r: usize, c: usize| po.representative_map[Target::wire(r, c).index(nw, n)];
+        let mut within_class = true; // sigma never leaves a copy class
+        let mut one_cycle_per_class = true; // the cycle through a cell visits its whole class
+        let mut class_size: std::collections::HashMap<usize, usize> = std::collections::HashMap::new();
+        for r in 0..n {
+            for c in 0..routed {
+                *class_size.entry(rep(r, c)).or_insert(0) += 1;
+            }
+        }
+        let mut bad: Vec<String> = vec![];
+        if is_perm {
+            for r in 0..n {
+                for c in 0..routed {
+                    let (r2, c2) = sigma[&(r, c)];
+                    if rep(r2, c2) != rep(r, c) {
+                        within_class = false;
+                    }
+                    let mut len = 1;
+                    let mut cur = (r2, c2);
+                    while cur != (r, c) && len <= n * routed {
+                        cur = sigma[&cur];
+                        len += 1;
+                    }
+                    if len != class_size[&rep(r, c)] {
+                        one_cycle_per_class = false;
+                        if bad.len() < 4 {
+                            bad.push(format!("cell ({r},{c}): cycle length {len}, class size {}", class_size[&rep(r, c)]));
+                        }
+                    }
+                }
+            }
+        }
+        let classes_gt1 = class_size.values().filter(|s| **s > 1).count();
+        ctx.add(
+            Ob::new(idp.clone(), SIGMA_FILES, format!("circuit '{name}' built by the real builder: {n} rows x {routed} routed wires, {classes_gt1} copy classes with more than one routed cell; concrete structure (no symbolic values)"))
+                .sample(format!("the committed sigma polynomials decode to a permutation of the routed cells whose cycles are exactly the copy classes of the builder's representative map; mismatches: {bad:?}"))
+                .goal(A::Bool(is_perm))
+                .goal(A::Bool(within_class))
+                .goal(A::Bool(one_cycle_per_class))
+                .goal(A::Bool(classes_gt1 > 0))
+                .key("sigma:cycles-differ-from-copy-classes"),
+        );
+    });
+}
+
+fn sigma_group<F: VF>(ctx: &mut Ctx) {
+    let tiny = tiny_config(8, 8, 4);
+    // a target first used in a gate, then connected to a product computed later (its class already
+    // has members hanging below the root when the merge happens)
+    sigma_case::<F>(ctx, "chain-late-connect", |b| {
+        let a = b.add_virtual_target();
+        let x = b.add_virtual_target();
+        let c = b.add_virtual_target();
+        let c_sq = b.mul(c, c);
+        let ab = b.mul(a, x);
+        b.connect(ab, c);
+        let _ = b.add(c_sq, ab);
+    }, tiny.clone());
+    sigma_case::<F>(ctx, "chain-both-orders", |b| {
+        let t: Vec<Target> = (0..6).map(|_| b.add_virtual_target()).collect();
+        let s: Vec<Target> = t.iter().map(|x| b.mul(*x, *x)).collect();
+        // merge in an order that builds deep parent chains: (1,0) (2,1) (4,5) (3,4) (2,3)
+        b.connect(t[1], t[0]);
+        b.connect(t[2], t[1]);
+        b.connect(t[4], t[5]);
+        b.connect(t[3], t[4]);
+        b.connect(t[2], t[3]);
+        let _ = b.add_many(s.iter().copied());
+    }, tiny.clone());
+    sigma_case::<F>(ctx, "star-and-reverse", |b| {
+        let hub = b.add_virtual_target();
+        let t: Vec<Target> = (0..5).map(|_| b.add_virtual_target()).collect();
+        for (i, x) in t.iter().enumerate() {
+            let sq = b.mul(*x, hub);
+            if i % 2 == 0 {
+                b.connect(sq, hub);
+            } else {
+                b.connect(hub, sq);
+            }
+        }
+    }, tiny.clone());
+    sigma_case::<F>(ctx, "tiny-circuit", |b| {
+        let x = b.add_virtual_target();
+        let y = b.add_virtual_target();
+        let xy = b.mul(x, y);
+        let s = b.add(xy, x);
+        let c = b.constant(F::from_canonical_u64(7));
+        let t = b.mul(s, c);
+        let u = b.sub(t, y);
+        b.connect(u, x);
+    }, tiny);
+    sigma_case::<F>(ctx, "standard-config-public-inputs", |b| {
+        let x = b.add_virtual_target();
+        let y = b.add_virtual_target();
+        let z = b.mul(x, y);
+        let w = b.exp_u64(z, 5);
+        b.register_public_input(w);
+        b.register_public_input(x);
+        let zero = b.zero();
+        let r = b.random_access(zero, vec![x, y, z, w]);
+        b.connect(r, x);
+    }, CircuitConfig::standard_recursion_config());
+}
+
 pub fn family<F: VF>(ctx: &mut Ctx) {
+    sigma_group::<F>(ctx);
     vanishing_reference::<F>(ctx);
     prover_vs_verifier::<F>(ctx);
     partial_products::<F>(ctx);
